@@ -122,6 +122,28 @@ def check(ctx):
             )
     ctx.floor("C11-f", nf_, 12, "pressure-taking correlations")
 
+    # ---- C11-g results have the input's shape: nothing that flows into a return value of a pressure-taking function
+    # passes through a shape-changing operation (a one-element array must come back as a one-element array)
+    n_shape = 0
+    for mn in ("bluebonnet.fluids.oil", "bluebonnet.fluids.water", "bluebonnet.fluids.fluid"):
+        m = P.module(mn)
+        funcs = list(m.functions.values()) + [f for c in m.classes.values() for f in c.methods.values()]
+        for fi in funcs:
+            if "pressure" not in fi.params:
+                continue
+            n_shape += 1
+            bad = _shape_changers(fi.node)
+            ctx.check(
+                not bad, "C11-g", fi.qualname + ":result shape", fi.where(),
+                "no value that flows into the function's result passes through squeeze / ravel / flatten / reshape / item / [()] / atleast_2d: the result has the shape of the pressure argument (a length-1 array stays a length-1 array)",
+                signature="shape changed by " + ",".join(sorted({b[1] for b in bad})), sites=[f"line {b[0]}: {b[2]}" for b in bad],
+            )
+    ctx.floor("C11-g", n_shape, 12, "pressure-taking functions")
+
+    from .dtypes import check_vectorize
+
+    nv = check_vectorize(ctx, "C11-h", ["bluebonnet.fluids.oil", "bluebonnet.fluids.water", "bluebonnet.fluids.fluid"])
+    ctx.floor("C11-h", nv, 1, "np.vectorize call sites")
     # ---- C11-e Fluid wrappers
     from .c19 import check_delegation
 
@@ -135,3 +157,52 @@ def ctx_nf(v):
     if isinstance(v, Buf) and v.fill is not None and not v.parts and not v.items:
         return ctx_nf(v.fill)
     raise AnalysisError(f"non-numeric value {type(v).__name__} in an array/scalar comparison")
+
+
+SHAPE_CHANGERS = {"squeeze", "ravel", "flatten", "reshape", "item", "atleast_2d", "atleast_3d", "expand_dims", "tolist"}
+
+
+def _shape_changers(fnode):
+    """[(line, name, text)] of shape-changing operations on values that flow (through local assignments) into a return"""
+    import ast
+
+    own = [n for n in ast.walk(fnode)]
+    nested = {id(x) for d in own if isinstance(d, (ast.FunctionDef, ast.Lambda)) and d is not fnode for x in ast.walk(d) if x is not d}
+    rets = [n for n in own if isinstance(n, ast.Return) and n.value is not None and id(n) not in nested]
+    live = set()
+    exprs = [r.value for r in rets]
+    for e in exprs:
+        live |= {x.id for x in ast.walk(e) if isinstance(x, ast.Name)}
+    changed = True
+    while changed:
+        changed = False
+        for n in own:
+            if id(n) in nested:
+                continue
+            tgt, val = None, None
+            if isinstance(n, ast.Assign):
+                tgt, val = n.targets, n.value
+            elif isinstance(n, ast.AugAssign):
+                tgt, val = [n.target], n.value
+            elif isinstance(n, ast.AnnAssign) and n.value is not None:
+                tgt, val = [n.target], n.value
+            if tgt is None:
+                continue
+            names = {x.id for t in tgt for x in ast.walk(t) if isinstance(x, ast.Name)}
+            if names & live:
+                if val not in exprs:
+                    exprs.append(val)
+                new = {x.id for x in ast.walk(val) if isinstance(x, ast.Name)} - live
+                if new:
+                    live |= new
+                    changed = True
+    out = []
+    for e in exprs:
+        for n in ast.walk(e):
+            if isinstance(n, ast.Call):
+                nm = n.func.attr if isinstance(n.func, ast.Attribute) else (n.func.id if isinstance(n.func, ast.Name) else "")
+                if nm in SHAPE_CHANGERS:
+                    out.append((n.lineno, nm, ast.unparse(n)[:60]))
+            elif isinstance(n, ast.Subscript) and isinstance(n.slice, ast.Tuple) and not n.slice.elts:
+                out.append((n.lineno, "[()]", ast.unparse(n)[:60]))
+    return sorted(set(out))
